@@ -847,7 +847,7 @@ func (in *Interp) sliceOp(fr *Frame, ins *ssa.Slice) Value {
 		}
 		return in.strSlice(s, l, h)
 	case Slice:
-		if s.Arr != nil && s.Arr.Num != nil {
+		if s.Arr.opaque() {
 			if lo == nil && hi == nil {
 				return s
 			}
@@ -898,7 +898,7 @@ func (in *Interp) indexAddr(fr *Frame, ins *ssa.IndexAddr) {
 	const kind = "index out of range"
 	switch s := x.(type) {
 	case Slice:
-		if s.Arr != nil && s.Arr.Num != nil {
+		if s.Arr.opaque() {
 			panic(abortf("byte-level access to numeric string"))
 		}
 		i := in.boundedIndex(in.get(fr, ins.Index), ins.Index.Type(), s.Len, false, kind)
@@ -1179,7 +1179,7 @@ func (in *Interp) callBuiltin(th *Thread, b *ssa.Builtin, args []Value, site *ss
 			}
 			return ts.BVConst(64, uint64(x.Len()))
 		case Slice:
-			if x.Arr != nil && x.Arr.Num != nil {
+			if x.Arr.opaque() {
 				panic(abortf("len of numeric byte string"))
 			}
 			return ts.BVConst(64, uint64(x.Len))
@@ -1338,7 +1338,7 @@ func (in *Interp) appendOp(s Slice, more Value) Value {
 	var elems []Value
 	switch m := more.(type) {
 	case Slice:
-		if m.Arr != nil && m.Arr.Num != nil {
+		if m.Arr.opaque() {
 			panic(abortf("append of numeric byte string"))
 		}
 		for i := 0; i < m.Len; i++ {
@@ -1351,7 +1351,7 @@ func (in *Interp) appendOp(s Slice, more Value) Value {
 	default:
 		panic(abortf("append of %T", more))
 	}
-	if s.Arr != nil && s.Arr.Num != nil {
+	if s.Arr.opaque() {
 		panic(abortf("append to numeric byte string"))
 	}
 	if len(elems) == 0 {
